@@ -32,9 +32,10 @@ pub fn prop() -> Prop {
 }
 
 fn describe(ctx: &Ctx) {
-    ctx.rule("set_password: (password, package size, content seed) with sizes from {0,1,15,16,17,31,32,33,4079..4097,4111..4113,k*4096-1,k*4096,k*4096+1} and generated sizes, content = splitmix bytes; write_with_password(_light): generated workbooks (1-3 sheets, text/number/bool cells, filler rows); boundary leg: every named boundary size once per run. Non-trivial = package size not a multiple of 16, or larger than one 4096-byte segment, or a non-ASCII password; distinct by serialized case");
+    ctx.rule("set_password: (password, package size, content seed) with sizes from {0,1,15,16,17,31,32,33,4079..4097,4111..4113,k*4096-1,k*4096,k*4096+1, 1 MiB-1, 1 MiB, 1 MiB+1, 1 MiB+4097 (segment 256 = first segment whose index does not fit one byte)} and generated sizes up to 1 MiB + 64 KiB (thorough 6 MiB), content = splitmix bytes; write_with_password(_light): generated workbooks (1-3 sheets, text/number/bool cells, filler rows); boundary leg: every named boundary size once per run. Non-trivial = package size not a multiple of 16, or larger than one 4096-byte segment, or a non-ASCII password; distinct by serialized case");
     ctx.assume("reference decryptor = harness/src/model/offcrypto.rs written from [MS-OFFCRYPTO] 2.3.4.10-15; shares only the aes/sha2/hmac primitive crates and the cfb container reader with the library; hash iterations cross-checked against Python hashlib/hmac in every run (pytools/offcrypto_selftest.py), AES-CBC against NIST SP 800-38A F.2.5");
-    ctx.assume("passwords are at most 255 UTF-16 code units ([MS-OFFCRYPTO] 2.3.4.11 limit) and contain no NUL / lone surrogates");
+    ctx.assume("passwords are at most 255 characters (Unicode scalar values, the statement's quantifier), i.e. up to 510 UTF-16 code units when they contain non-BMP characters, and contain no NUL / lone surrogates");
+    ctx.assume("segment indices above 65535 (packages above 256 MiB) are reached by one thorough-tier case only; see notes/C14.md for its cost");
     ctx.assume("the \\x06DataSpaces storage is observed (class counter) but not required: the statement lists verifier, HMAC, length and content only");
     ctx.assume("freshness is judged by inequality of two 16/32-byte values from two saves (false alarm probability 2^-128)");
 }
@@ -129,6 +130,15 @@ pub fn judge_encrypted(file: &[u8], pw: &str, wrong: &str, expect_bytes: Option<
         }
         if package.bytes() != want {
             let first = package.bytes().iter().zip(want.iter()).position(|(a, b)| a != b).unwrap_or(0);
+            // keyed by where the first difference sits: segment indices that need a second /
+            // third byte are their own failure class
+            let sc = if first / 4096 > 65535 {
+                "segment-index-above-65535"
+            } else if first / 4096 > 255 {
+                "segment-index-above-255"
+            } else {
+                sc
+            };
             return Err(Verdict::fail(
                 format!("{}/content-differs", sc),
                 format!("decrypted package differs from the input at offset {} (segment {}, block {} of it); package of {} bytes", first, first / 4096, (first % 4096) / 16, want.len()),
@@ -211,12 +221,20 @@ pub fn boundary_sizes(max_k: u32) -> Vec<u32> {
     v
 }
 
+pub const MIB: u32 = 1 << 20;
+
+/// Sizes around segment 256 (offset 1 MiB): the first segment whose index needs a second byte.
+pub fn mib_sizes() -> Vec<u32> {
+    vec![MIB - 1, MIB, MIB + 1, MIB + 4097]
+}
+
 fn setpw_case(t: Tier) -> BoxedStrategy<SetPwCase> {
     let size = prop_oneof![
         5 => prop::sample::select(boundary_sizes(t.pick(4, 40))),
         2 => 0u32..100,
         2 => 0u32..t.pick(20_000, 300_000),
         1 => (1u32..t.pick(6, 60), 0u32..33).prop_map(|(k, d)| k * 4096 + d - 16),
+        1 => prop_oneof![2 => prop::sample::select(mib_sizes()), 1 => MIB - 20..MIB + t.pick(65_536, 5 * MIB)],
     ];
     (password(true), any::<u8>(), size, any::<u64>())
         .prop_map(|(password, wrong_mode, size, fill)| SetPwCase { password, wrong_mode, size, fill })
@@ -231,6 +249,9 @@ fn check_setpw(c: &SetPwCase, obs: &mut Obs) -> Verdict {
     let size = c.size as usize;
     obs.class(pw_class(&c.password));
     obs.class(size_class(size));
+    if size > MIB as usize {
+        obs.class("beyond-segment-255");
+    }
     obs.nontrivial(nontrivial(size, &c.password));
     let input = fill_bytes(size, c.fill);
     let wrong = wrong_of(&c.password, c.wrong_mode);
@@ -495,14 +516,14 @@ fn subs() -> Vec<Box<dyn DynSub>> {
         Box::new(Sub {
             name: "set_password",
             strategy: setpw_case,
-            cases: (16, 400),
+            cases: (12, 400),
             check: check_setpw,
             max_shrink_iters: 24,
         }),
         Box::new(Sub {
             name: "write_with_password",
             strategy: wb_case,
-            cases: (8, 150),
+            cases: (6, 150),
             check: check_wb,
             max_shrink_iters: 24,
         }),
@@ -556,14 +577,21 @@ pub fn run_selftests(ctx: &Ctx) {
 
 fn extra(ctx: &Ctx) {
     run_selftests(ctx);
-    let sizes = boundary_sizes(ctx.tier.pick(4, 16));
-    let pws = ["pw", "пароль-日本", "a😀𠀋", ""];
+    let mut sizes = boundary_sizes(ctx.tier.pick(4, 16));
+    sizes.extend(mib_sizes());
+    if ctx.tier == Tier::Thorough {
+        // one package beyond 65536 segments (segment index needs a third byte)
+        sizes.push(65536 * 4096 + 4097);
+    }
+    // 'a' + 127 emoji + 'b': 129 characters, 256 UTF-16 code units
+    let long_nonbmp = format!("a{}b", "\u{1F511}".repeat(127));
+    let pws = ["pw", "пароль-日本", long_nonbmp.as_str(), "a😀𠀋", ""];
     let cases: Vec<SetPwCase> = sizes
         .iter()
         .enumerate()
         .map(|(i, &size)| SetPwCase {
             password: pws[(i + ctx.seed as usize) % pws.len()].to_string(),
-            wrong_mode: (i as u8).wrapping_add(ctx.seed as u8),
+            wrong_mode: (i as u8).wrapping_add((ctx.seed % 251) as u8),
             size,
             fill: splitmix(ctx.seed ^ (size as u64) << 8),
         })
